@@ -51,7 +51,7 @@ def gen_cases(tier: str, seed: int) -> list[dict]:
     return [{"seed": f"{seed}:C09:{i}", "kind": KINDS[i % len(KINDS)]} for i in range(n)]
 
 
-def build_model(rng) -> tuple[dict, dict]:  # noqa: ANN001
+def build_model(rng, p_ia: float = 0.5) -> tuple[dict, dict]:  # noqa: ANN001
     """Linear net + blow-up switch (kq) + optionally a rate constant defined by initial assignment of an initial value."""
     net = gen_linnet(rng, n_max=3)
     spec = net.spec()
@@ -61,7 +61,7 @@ def build_model(rng) -> tuple[dict, dict]:  # noqa: ANN001
     A0, _ = net.Ab(net.params | {kout: 0.0})
     info = {"ia": False, "params": [p for p in net.params], "variables": list(net.variables),
             "kout": kout if abs(np.linalg.det(A0)) < 1e-12 and kout != "k1" else None}
-    if rng.random() < 0.5:
+    if rng.random() < p_ia:
         # k1 := 0.5 + 0.7*x0(0)  (parameter computed from an initial value)
         for c in spec["components"]:
             if c["kind"] == "parameter" and c["name"] == "k1":
@@ -173,7 +173,9 @@ def run_case(case: dict) -> dict:
 
     rng = core.rng_for(case["seed"])
     kind = case["kind"]
-    spec, info = build_model(rng)
+    # steady states of these networks depend on the start only through the assignment-defined parameter: the steady-state
+    # kinds get it more often, so that base initial values (y0) and initial-value columns matter there
+    spec, info = build_model(rng, 0.8 if "steady_state" in kind else 0.5)
     pristine = rm.build(spec)
     k = kind.split(".")[1]
     table, fail_rows = gen_table(rng, info, kind)
@@ -206,7 +208,7 @@ def run_case(case: dict) -> dict:
     if table.shape[1] == 0:
         table = pd.DataFrame({pnames[0]: [0.7, 1.3]})
         fail_rows = []
-    if rng.random() < 0.4:
+    if rng.random() < (0.7 if "steady_state" in kind else 0.4):
         # base initial values for the whole scan; where the table (or the outer Monte-Carlo table) has a column for the
         # same variable, the row's value is the one that counts
         tv = [c for c in table.columns if c in info["variables"]]
